@@ -101,6 +101,10 @@ def run(ctx):
 
     for r_ in ("P-DEL", "P-DELJOINT", "P-NODE", "P-SHRINK", "P-LOOPVAR", "P-ADJ1"):
         res.rules[r_] = PATH_RULES[r_]
+    # ... and on add_edge listing a hyperedge ONCE in the incidence list of each member, however often it is inserted (P-ADJ1)
+    res.rules.update({k_: PATH_RULES[k_] for k_ in ("P-FRESH", "P-ACCUM", "P-EMETA", "P-ADD-ID") if k_ in PATH_RULES})
+    with res.guard("RC.check_add_edge(ctx, res, Hypergraph)"):
+        RC.check_add_edge(ctx, res, "Hypergraph")
     with res.guard("RC.check_remove_edge(ctx, res, Hypergraph)"):
         RC.check_remove_edge(ctx, res, "Hypergraph")
     with res.guard("RC.check_remove_node(ctx, res, Hypergraph)"):
